@@ -1,12 +1,24 @@
 """C17 - sliver comparison reports exactly the differences between two slivers.
 
-Cases are (kind, tree, script): a sliver tree given as a plain spec, built with the real sliver
-classes, deep-copied, and the hierarchical edit script applied to the copy with the real
-add_/remove_/set_ methods.  The three real `diff` methods are then run old->new and new->old.
+Cases are
+  (kind, tree, script): a sliver tree given as a plain spec, built with the real sliver classes, deep-copied, and the
+      hierarchical edit script applied to the copy with the real add_/remove_/set_ methods;
+  (kind, pair): two independently built slivers over the same name pools (same name with another type, None against empty
+      *Info, renamed children - what an edit script on a copy cannot produce);
+  (topo, init, ops): an ExperimentTopology built and edited through the user API, the node's deep sliver
+      (graph_model.build_deep_node_sliver) taken before and after the edits.
+The three real `diff` methods are run old->new and new->old.
 
-correspondence: structural specs of both real slivers (read back from the objects, property values
-  canonicalised without going through the code's __eq__) -> Lean model `Model/Diff.lean`.
-oracle: what the edit script says must be reported (never looks at the model).
+translator: gen/diffcfg.py -> Generated/DiffCfg.lean (what prop_diff compares, which child dictionaries every diff compares and
+  how, the kinds it descends below, the final test, the fields of the result, the flag values, the value classes' __eq__ idioms).
+correspondence: structural specs of both real slivers (read back from the objects, property values canonicalised without
+  going through the code's __eq__) -> the table-driven Lean model (`nodeDiffC` ... of `Model/Diff.lean` on the generated table);
+  the Lean edit-script semantics against the real mutators; the value classes' own ==/!= against `Model/DiffVal.lean` (and
+  against the canonical strings of this harness); *Info.add_/remove_ histories against `dictRun`.
+oracle: what the edit script says must be reported / what the two specs say (never looks at the model); the guard "every
+  SmartNIC has a network service" on everything the component catalog and the topology API produce.
+Nothing here reads the extractor's report: the table is asked from the driver (`["cfg"]`), i.e. from the Generated file the
+theorems were checked against in this run (the baseline one after a translator fallback).
 """
 import copy
 import itertools
@@ -27,7 +39,8 @@ THEOREMS = [P + t for t in (
     "iface_diff_none_iff", "svc_diff_none_iff", "node_diff_none_iff",
     "props_edit_exact", "dict_edit_exact", "iface_diff_exact", "svc_diff_exact", "node_diff_exact",
     # the extracted table (gen/diffcfg.py -> Generated/DiffCfg.lean) and the table-driven model the driver runs
-    "table_good", "flag_values_decodable", "table_model_eq", "generated_model_eq",
+    "table_good", "flag_values_decodable", "table_model_eq", "generated_model_eq", "generated_node_diff_self_none",
+    "generated_node_diff_exact",
     # modified sets agree in both directions
     "prop_diff_symm", "iface_modified_symm", "svc_modified_symm", "node_modified_symm", "svc_modified_symm_counterexample",
     # blind spots of NodeSliver.diff, exactly
@@ -35,33 +48,56 @@ THEOREMS = [P + t for t in (
     "node_diff_complete_partial",
     # corner cases and hypotheses
     "first_sub_interface_flagged", "rename_reported_as_remove_and_add", "none_info_is_empty_info",
-    "dict_keys_unique_invariant", "pair_ok_of_ok", "node_diff_kind_collision_counterexample")]
+    "dict_keys_unique_invariant", "pair_ok_of_ok", "node_diff_kind_collision_counterexample",
+    # the value classes' own equality (Labels / Capacities / JSONData.__eq__ as written)
+    "fields_eq_is_dict_equality", "fields_eq_refl", "user_data_eq_equivalence", "user_data_member_order_irrelevant",
+    "user_data_types_distinct", "prop_diff_on_values", "prop_diff_on_values_self")]
 TRUSTED_BASE = [
-    "Model/Diff.lean mirrors by hand the control flow of BaseSliver.prop_diff/_dict_diff/_dict_common, InterfaceSliver.diff, "
-    "NetworkServiceSliver.diff, NodeSliver.diff (which dictionaries are compared with which, the None/not-None tests on the *Info "
-    "objects, the SmartNIC/DedicatedPort descents, the first-service indexing and its AttributeError/IndexError); checked "
-    "differentially on generated sliver pairs, never translated",
-    "Labels.__eq__/Capacities.__eq__ are modelled as equality of the field dictionaries (C15 proves this for Capacities), "
-    "JSONData.__eq__ as equality of json.dumps(json.loads(text), sort_keys=True); the harness computes these canonical forms itself "
-    "from the objects' fields, so a comparison in the code that disagrees with them shows up as a correspondence difference",
+    "gen/diffcfg.py: a symbolic evaluator of the restricted Python the three diff methods, prop_diff and the value classes' __eq__ "
+    "are written in (every presence combination of the *Info objects, one symbolic pass through the loop over common children); its "
+    "summary must fit the table type `Cfg` exactly or it is an ExtractionError. `Proofs/C17.table_good` checks the extracted table, "
+    "`table_model_eq` that the table-driven model is the model of the theorems; the evaluator itself is trusted and checked "
+    "differentially (every extracted fact changes the outcome of generated cases: all component / interface kinds, each property, "
+    "each term of the final test alone, None/empty/filled *Info on either side, kind collisions, class mismatches)",
+    "the control flow the table does not express is mirrored by hand in Model/Diff.lean: the loop over common children, the "
+    "first-service indexing of the SmartNIC descent and its AttributeError/IndexError, the shape of the sub-interface test; checked "
+    "differentially on generated sliver pairs",
+    "Model/DiffVal.lean mirrors Labels.__eq__/Capacities.__eq__ (loop over self.__dict__ with the extracted default for a missing "
+    "field) and JSONData.__eq__ (same class, canonical text; a decoded JSON value with number tokens as Python prints them stands "
+    "for its canonical text - json.dumps(sort_keys=True) is assumed injective on key-sorted values); checked against the real "
+    "==/!= on pool and random values incl. instances lacking a field; the canonical strings the harness sends for property values "
+    "are checked against the real == on the same values in every run",
     "the edit-script semantics of the theorems (Lemmas/C17Script.lean: applyNode/applySvc/applyIface, expNode/expSvc/expIface) are "
     "hand-written; checked differentially: `apply` against the real add_*/remove_*/set_* calls on a deep copy, `expect` against "
     "what the real diff returns for that copy",
-    "Python dict/set semantics (keys unique, set of slivers keyed by (resource_name, node_id)) modelled by name-keyed lists with a "
-    "Nodup-names well-formedness hypothesis; output order is not compared (sets / arbitrary set iteration order)",
+    "Python dict/set semantics (keys unique, set of slivers keyed by (resource_name, node_id)) modelled by name-keyed lists; "
+    "`dict_keys_unique_invariant` proves the Nodup-names hypothesis for every add_/remove_ history (`dictRun`, checked against the "
+    "real InterfaceInfo); output order is not compared (sets / arbitrary set iteration order)",
 ]
 ASSUMPTIONS = [
-    "every *Info dictionary is keyed by the resource_name of the sliver it holds (what add_device/add_network_service/add_interface do)",
+    "every *Info dictionary is keyed by the resource_name of the sliver it holds (extracted: key of add_* = key of the lookup; "
+    "checked on every add_/remove_ history)",
     "a component carries at most one network service (as the FIM API builds it); the code only ever looks at the first one on each side",
     "sub-interfaces exist only under DedicatedPort interfaces (Interface.add_child_interface asserts this) and are leaves",
-    "both slivers are of the same class and `other` is not None; pickles of older Labels/Capacities versions are outside the quantifier",
+    "both slivers are of the same class (anything else is refused by the isinstance assertion - extracted and checked) and `other` is "
+    "not None (diff(None) returns None); pickles of older Labels/Capacities versions (instances lacking a field) are outside the "
+    "quantifier of the sliver theorems (the value-equality model covers them)",
+    "every SmartNIC carries a network service (`Node.Ok`; otherwise the method raises: node_diff_raises_iff) - checked on every SmartNIC "
+    "of the component catalog and every deep sliver the topology stream builds",
+    "symmetry of the modified part needs both sides to agree on which components are SmartNICs / which ports are dedicated "
+    "(`KindsAgree`; counterexample proved; a kind collision under the same name can even raise: known finding)",
 ]
-RULE = ("node / service / interface sliver trees (<=4 components, <=3 node-level services, <=4 interfaces per service, <=3 sub-interfaces "
-        "per dedicated port; label/capacity/user-data values from a small pool with equal-valued but differently written user data), "
-        "deep-copied, hierarchical edit scripts of 0..8 non-conflicting edits (add/remove component, node-level service, interface, "
-        "sub-interface; set labels/capacities/user data at every level, sometimes to the old value; equal-valued user data set on both "
-        "sides); plus a malformed stream (SmartNIC without services, sub-interfaces under non-dedicated ports, unrelated slivers). "
-        "non-trivial = at least one edit or equal-valued user data on both sides; distinct by canonical (kind, tree, script)")
+RULE = ("node / service / interface sliver trees (<=4 components of every ComponentType, <=3 node-level services, <=4 interfaces of every "
+        "InterfaceType per service, <=3 sub-interfaces per dedicated port; label/capacity/user-data values from a small pool with "
+        "equal-valued but differently written user data), deep-copied, hierarchical edit scripts of 0..8 non-conflicting edits "
+        "(add/remove component, node-level service, interface, sub-interface; set labels/capacities/user data at every level, sometimes "
+        "to the old value; equal-valued user data set on both sides); independently generated pairs over shared name pools (kind "
+        "collisions, None / empty / filled *Info on either side, renames); topologies edited through the user API (add/remove "
+        "component incl. re-adding a removed name as another model, node-level services, first/second/last sub-interface, property "
+        "changes) with deep slivers before/after; plus a malformed stream (SmartNIC without services, sub-interfaces under non-dedicated "
+        "ports); value pairs (Labels/Capacities/UserData from pools, random JSON with shuffled members and bool/int/float look-alikes, "
+        "instances lacking a field); add_/remove_ histories on an InterfaceInfo. non-trivial = at least one edit / a pair / a topology / "
+        "two different values; distinct by canonical request")
 
 FLAG_NAMES = ["LABELS", "CAPACITIES", "USER_DATA", "SUB_INTERFACES"]
 
@@ -242,7 +278,7 @@ def wire_node(n):
             "svcs": None if n.network_service_info is None else [wire_svc(x) for x in n.network_service_info.network_services.values()]}
 
 
-WIRE = {"node": wire_node, "svc": wire_svc, "iface": wire_iface}
+WIRE = {"node": wire_node, "svc": wire_svc, "iface": wire_iface, "topo": wire_node}
 
 # ---------------------------------------------------------------------------------------------
 # edit scripts (hierarchical, non-conflicting by construction) and their application to real slivers
@@ -345,6 +381,8 @@ APPLY = {"node": apply_node, "svc": apply_svc, "iface": apply_iface}
 
 def build_pair(case):
     """(old, new): build, deep-copy, edit the copy; or two independently built slivers (`pair`)"""
+    if case["kind"] == "topo":
+        return topo_build(case)
     if "pair" in case:
         return MK[case["kind"]](case["pair"][0]), MK[case["kind"]](case["pair"][1])
     a = MK[case["kind"]](case["tree"])
@@ -528,13 +566,19 @@ def exp_node(spec, sc, hidden):
 
 
 def pd_specs(pa, pb):
-    out = set()
-    if canon_labels(pa[0]) != canon_labels(pb[0]):
-        out.add("LABELS")
-    if canon_caps(pa[1]) != canon_caps(pb[1]):
-        out.add("CAPACITIES")
-    if canon_ud(pa[2]) != canon_ud(pb[2]):
-        out.add("USER_DATA")
+    """on canonical trees (`canon_tree` of a spec, or the wire form read back from a real sliver)"""
+    return {nm for nm, x, y in zip(FLAG_NAMES, pa, pb) if x != y}
+
+
+def canon_tree(t):
+    """a spec with its property values replaced by their canonical strings"""
+    if isinstance(t, list):
+        return [canon_tree(x) for x in t]
+    if not isinstance(t, dict):
+        return t
+    out = {k: canon_tree(v) for k, v in t.items() if k != "p"}
+    if "p" in t:
+        out["p"] = [canon_labels(t["p"][0]), canon_caps(t["p"][1]), canon_ud(t["p"][2])]
     return out
 
 
@@ -598,17 +642,23 @@ def pair_node(a, b, mask):
     return e
 
 
-def kind_collisions(case):
+def kind_collisions(kind, ta, tb):
     """names of components present on both sides of a pair of nodes with different types"""
-    if case["kind"] != "node":
+    if kind not in ("node", "topo"):
         return []
-    da, db = by_name(case["pair"][0].get("comps")), by_name(case["pair"][1].get("comps"))
+    da, db = by_name(ta.get("comps")), by_name(tb.get("comps"))
     return sorted(k for k in set(da) & set(db) if da[k].get("t") != db[k].get("t"))
 
 
-def expected_pair(case, mask):
-    k, (a, b) = case["kind"], case["pair"]
-    e = pair_node(a, b, mask) if k == "node" else pair_svc(a, b, mask) if k == "svc" else pair_iface(a, b)
+def pair_trees(case, a=None, b=None):
+    """the two sides of a pair as canonical trees: from the specs, or (library-built slivers) read back from the objects"""
+    if case["kind"] == "topo":
+        return wire_node(a), wire_node(b)
+    return canon_tree(case["pair"][0]), canon_tree(case["pair"][1])
+
+
+def expected_pair(kind, ta, tb, mask):
+    e = pair_node(ta, tb, mask) if kind in ("node", "topo") else pair_svc(ta, tb, mask) if kind == "svc" else pair_iface(ta, tb)
     return e if nonempty(e) else None
 
 
@@ -631,8 +681,10 @@ def apply_mask(exp, obs, mask):
 
 def expected(case, hidden):
     k = case["kind"]
+    if k == "topo":
+        return expected_pair(k, *pair_trees(case, *build_pair(case)), set())
     if "pair" in case:
-        return expected_pair(case, set())
+        return expected_pair(k, *pair_trees(case), set())
     if k == "node":
         e = exp_node(case["tree"], case.get("script"), hidden)
     elif k == "svc":
@@ -642,7 +694,7 @@ def expected(case, hidden):
     return e if nonempty(e) else None
 
 
-METHOD = {"node": "NodeSliver.diff", "svc": "NetworkServiceSliver.diff", "iface": "InterfaceSliver.diff"}
+METHOD = {"node": "NodeSliver.diff", "svc": "NetworkServiceSliver.diff", "iface": "InterfaceSliver.diff", "topo": "NodeSliver.diff"}
 
 
 def compare(exp, obs):
@@ -689,19 +741,26 @@ def check_case(case, res):
     hidden = []
     fwd = run_diff(a, b, decode=True)
     bwd = run_diff(b, a, decode=True)
-    if "pair" in case:
+    is_pair = "pair" in case or case["kind"] == "topo"
+    if is_pair:
         mask = set()
-        exp = expected_pair(case, mask)
+        ta, tb = pair_trees(case, a, b)
+        if case["kind"] == "topo":
+            for t in (ta, tb):
+                for c in t.get("comps") or []:
+                    if c["t"] == "SmartNIC" and not c["svcs"]:
+                        bad("hypothesis:smartnic-without-service", "a deep sliver built from a topology has a SmartNIC without a network service")
+        exp = expected_pair(case["kind"], ta, tb, mask)
         if fwd[0] == "ok":
             exp = apply_mask(exp, fwd[1], mask)
     else:
         exp = expected(case, hidden)
     if fwd[0] == "err" or bwd[0] == "err":
         kind = fwd[1] if fwd[0] == "err" else bwd[1]
-        if "pair" in case and kind_collisions(case):
+        if is_pair and kind_collisions(case["kind"], ta, tb):
             # a component that is a SmartNIC on one side and something else without a network service on the other
             bad("kind-collision:raises:" + kind, "diff raised: a component has the same name but another type on the other side "
-                "(%s)" % ", ".join(kind_collisions(case)), observed=[fwd, bwd])
+                "(%s)" % ", ".join(kind_collisions(case["kind"], ta, tb)), observed=[fwd, bwd])
         else:
             bad("raises:" + kind, "diff raised on well-formed slivers", observed=[fwd, bwd])
         return 1
@@ -1067,6 +1126,432 @@ def corner_pairs():
     return out
 
 
+# ---------------------------------------------------------------------------------------------
+# slivers produced by the library itself: an ExperimentTopology is built and edited through the user API and the node's deep
+# sliver (graph_model.build_deep_node_sliver) is taken before and after the edits.  case = {"kind": "topo", "init": [ops], "ops": [ops]}
+#   ["add_comp", name, model] ["rm_comp", name] ["node_props", pe] ["comp_props", name, pe] ["port_props", comp, idx, pe]
+#   ["add_sub", comp, idx, subname, vlan] ["rm_sub", comp, idx, subname] ["sub_props", comp, idx, subname, pe]
+#   ["add_ns", name] ["rm_ns", name] ["ns_props", name, pe]
+
+TOPO_MODELS = ["SmartNIC_ConnectX_6", "SmartNIC_ConnectX_5", "SmartNIC_BlueField_2_ConnectX_6", "SharedNIC_ConnectX_6", "GPU_RTX6000",
+               "GPU_Tesla_T4", "NVME_P4510", "FPGA_Xilinx_U280"]
+TOPO_LABELS = [{"ipv4": "192.168.1.1"}, {"ipv4": "192.168.1.2"}, {"bdf": "0000:41:00.0"}, {"mac": "00:11:22:33:44:55"}]
+TOPO_CAPS = [{"core": 2, "ram": 8}, {"core": 4, "ram": 8, "disk": 10}, {"unit": 1}, {"bw": 10}]
+
+
+def topo_pe(target, pe):
+    r = R.load()
+    kw = {}
+    if "labels" in pe:
+        kw["labels"] = r.Labels(**pe["labels"][0])
+    if "caps" in pe:
+        kw["capacities"] = r.Capacities(**pe["caps"][0])
+    if "ud" in pe:
+        kw["user_data"] = r.UserData(pe["ud"][0])
+    if kw:
+        target.set_properties(**kw)
+
+
+def topo_apply(t, n, op):
+    from fim.user.component import ComponentModelType
+    from fim.slivers.network_service import ServiceType
+    r = R.load()
+    k = op[0]
+    if k == "add_comp":
+        n.add_component(name=op[1], model_type=ComponentModelType[op[2]])
+    elif k == "rm_comp":
+        n.remove_component(op[1])
+    elif k == "node_props":
+        topo_pe(n, op[1])
+    elif k == "comp_props":
+        topo_pe(n.components[op[1]], op[2])
+    elif k == "add_ns":
+        n.add_network_service(name=op[1], nstype=ServiceType.OVS)
+    elif k == "rm_ns":
+        n.remove_network_service(op[1])
+    elif k == "ns_props":
+        topo_pe(n.network_services[op[1]], op[2])
+    else:
+        port = n.components[op[1]].interface_list[op[2]]
+        if k == "port_props":
+            topo_pe(port, op[3])
+        elif k == "add_sub":
+            port.add_child_interface(name=op[3], labels=r.Labels(vlan=op[4]))
+        elif k == "rm_sub":
+            port.remove_child_interface(name=op[3])
+        elif k == "sub_props":
+            sub = [i for i in port.interface_list if i.name == op[3]][0]
+            topo_pe(sub, op[4])
+        else:
+            raise ValueError("unknown topology op %r" % (op,))
+
+
+def topo_build(case):
+    from fim.user.topology import ExperimentTopology
+    t = ExperimentTopology()
+    try:
+        n = t.add_node(name="n1", site="RENC")
+        for op in case["init"]:
+            topo_apply(t, n, op)
+        a = t.graph_model.build_deep_node_sliver(node_id=n.node_id)
+        for op in case["ops"]:
+            topo_apply(t, n, op)
+        b = t.graph_model.build_deep_node_sliver(node_id=n.node_id)
+        return a, b
+    finally:
+        try:
+            t.graph_model.delete_graph()
+        except Exception:
+            pass
+
+
+def g_topo_ops(rng, state, k, vl):
+    """k valid operations on the tracked state {comps: {name: {model, subs: {idx: set(names)}}}, ns: set()}"""
+    ops = []
+    for _ in range(k):
+        smart = [c for c, v in state["comps"].items() if v["model"].startswith("SmartNIC")]
+        nics = [c for c, v in state["comps"].items() if "NIC" in v["model"] or v["model"].startswith("FPGA")]
+        choices = ["add_comp", "node_props"]
+        if state["comps"]:
+            choices += ["rm_comp", "comp_props"]
+        if nics:
+            choices += ["port_props"]
+        if smart:
+            choices += ["add_sub", "add_sub", "add_sub"]
+            if any(s for c in smart for s in state["comps"][c]["subs"].values()):
+                choices += ["rm_sub", "sub_props", "sub_props"]
+        choices += ["add_ns"] if len(state["ns"]) < 2 else []
+        if state["ns"]:
+            choices += ["rm_ns", "ns_props"]
+        k = rng.choice(choices)
+        pe = {}
+        while not pe:
+            if rng.random() < 0.4:
+                pe["labels"] = [rng.choice(TOPO_LABELS)]
+            if rng.random() < 0.4:
+                pe["caps"] = [rng.choice(TOPO_CAPS)]
+            if rng.random() < 0.4:
+                pe["ud"] = [rng.choice(UD_POOL[1:])]
+        if k == "add_comp":
+            name = "c%d" % state["n"]
+            state["n"] += 1
+            if state["gone"] and rng.random() < 0.3:
+                name = state["gone"].pop()           # a removed name comes back, perhaps as another kind
+            model = rng.choice(TOPO_MODELS)
+            state["comps"][name] = {"model": model, "subs": {0: set(), 1: set()}}
+            ops.append(["add_comp", name, model])
+        elif k == "rm_comp":
+            name = rng.choice(sorted(state["comps"]))
+            del state["comps"][name]
+            state["gone"].append(name)
+            ops.append(["rm_comp", name])
+        elif k == "node_props":
+            ops.append(["node_props", pe])
+        elif k == "comp_props":
+            ops.append(["comp_props", rng.choice(sorted(state["comps"])), pe])
+        elif k == "port_props":
+            pe.pop("labels", None)                   # the port's labels carry the local name sub-interfaces inherit
+            if pe:
+                ops.append(["port_props", rng.choice(sorted(nics)), 0, pe])
+        elif k == "add_sub":
+            c = rng.choice(sorted(smart))
+            idx = rng.choice([0, 1])
+            name = "sub%d" % state["n"]
+            state["n"] += 1
+            vl[0] += 1
+            state["comps"][c]["subs"][idx].add(name)
+            ops.append(["add_sub", c, idx, name, str(vl[0])])
+        elif k in ("rm_sub", "sub_props"):
+            cands = [(c, i, s) for c in smart for i, ss in state["comps"][c]["subs"].items() for s in sorted(ss)]
+            c, i, s = rng.choice(cands)
+            if k == "rm_sub":
+                state["comps"][c]["subs"][i].discard(s)
+                ops.append(["rm_sub", c, i, s])
+            else:
+                pe.pop("labels", None)               # vlan + local name stay
+                if pe:
+                    ops.append(["sub_props", c, i, s, pe])
+        elif k == "add_ns":
+            name = "ns%d" % state["n"]
+            state["n"] += 1
+            state["ns"].add(name)
+            ops.append(["add_ns", name])
+        elif k == "rm_ns":
+            name = rng.choice(sorted(state["ns"]))
+            state["ns"].discard(name)
+            ops.append(["rm_ns", name])
+        elif k == "ns_props":
+            ops.append(["ns_props", rng.choice(sorted(state["ns"])), pe])
+    return ops
+
+
+def gen_topo(rng, n):
+    out = []
+    for _ in range(n):
+        state = {"comps": {}, "ns": set(), "n": 0, "gone": []}
+        vl = [100]
+        init = g_topo_ops(rng, state, rng.choice([1, 2, 3, 4, 6]), vl)
+        ops = g_topo_ops(rng, state, rng.choice([0, 1, 1, 2, 3, 5]), vl)
+        out.append({"kind": "topo", "init": init, "ops": ops})
+    return out
+
+
+def corner_topo():
+    return [
+        # the first sub-interface on a port that had none (C17-r3-2), a second one, the last one removed
+        {"kind": "topo", "init": [["add_comp", "nic1", "SmartNIC_ConnectX_6"]], "ops": [["add_sub", "nic1", 0, "sub1", "101"]]},
+        {"kind": "topo", "init": [["add_comp", "nic1", "SmartNIC_ConnectX_6"], ["add_sub", "nic1", 0, "sub1", "101"]],
+         "ops": [["add_sub", "nic1", 0, "sub2", "102"]]},
+        {"kind": "topo", "init": [["add_comp", "nic1", "SmartNIC_ConnectX_6"], ["add_sub", "nic1", 0, "sub1", "101"]],
+         "ops": [["rm_sub", "nic1", 0, "sub1"]]},
+        {"kind": "topo", "init": [["add_comp", "nic1", "SmartNIC_ConnectX_6"], ["add_sub", "nic1", 1, "sub1", "101"]],
+         "ops": [["sub_props", "nic1", 1, "sub1", {"caps": [{"bw": 10}]}]]},
+        {"kind": "topo", "init": [["add_comp", "nic1", "SmartNIC_ConnectX_6"], ["add_comp", "gpu1", "GPU_RTX6000"]], "ops": []},
+        {"kind": "topo", "init": [["add_comp", "gpu1", "GPU_RTX6000"]], "ops": [["add_comp", "nic1", "SmartNIC_ConnectX_5"], ["rm_comp", "gpu1"]]},
+        {"kind": "topo", "init": [], "ops": [["add_ns", "ns1"]]},
+        {"kind": "topo", "init": [["add_ns", "ns1"]], "ops": [["rm_ns", "ns1"], ["node_props", {"caps": [{"core": 2, "ram": 8}]}]]},
+        {"kind": "topo", "init": [["add_comp", "nic1", "SharedNIC_ConnectX_6"]], "ops": [["comp_props", "nic1", {"ud": ['{"a": 1}']}]]},
+    ]
+
+
+# ---------------------------------------------------------------------------------------------
+# the value classes' own equality against `Model/DiffVal.lean` (and against the canonical strings this harness uses)
+
+UD_EXTRA = ['{"autostart": true}', '{"autostart": 1}', '{"autostart": 1.0}', '{"autostart": false}', '{"autostart": 0}', 'true', '1', '1.0',
+            'null', '0', '-0', '0.0', '-0.0', '[true]', '[1]', '[1.0]', '{"k": 1e2}', '{"k": 100.0}', '{"k": 100}',
+            '{"a": {"b": {"c": [1, {"e": 2, "d": 3}]}}}', '{"a": {"b": {"c": [1, {"d": 3, "e": 2}]}}}', '{"a": {"b": {"c": [{"d": 3, "e": 2}, 1]}}}',
+            '{"\u00e9": 1, "z": 2, "A": 3, "a": 4}', '{"a": 4, "A": 3, "z": 2, "\u00e9": 1}', '{"a":1,"a":2}', '{"a": 2}',
+            '{"n": 12345678901234567890123}', '{"n": 1.5e300}', '""', '"1"', '{"": 0}', '[]', '[[]]', '[{}]', '{"a": []}', '{"a": {}}']
+
+
+def fv_wire(v):
+    if v is None or isinstance(v, str):
+        return v
+    if isinstance(v, bool):
+        raise ValueError("bool in a field")
+    if isinstance(v, int):
+        return v
+    if isinstance(v, list) and all(isinstance(x, str) for x in v):
+        return list(v)
+    raise ValueError("field value %r" % (v,))
+
+
+def fields_wire(o):
+    return None if o is None else [[k, fv_wire(v)] for k, v in o.__dict__.items()]
+
+
+def j_wire(x):
+    if x is None or isinstance(x, bool):
+        return x
+    if isinstance(x, (int, float)):
+        return ["n", json.dumps(x)]
+    if isinstance(x, str):
+        return ["s", x]
+    if isinstance(x, list):
+        return ["a", [j_wire(y) for y in x]]
+    if isinstance(x, dict):
+        return ["o", [[k, j_wire(v)] for k, v in x.items()]]
+    raise ValueError("json value %r" % (x,))
+
+
+def py_eq(a, b):
+    try:
+        return ["ok", [bool(a == b), bool(a != b)]]
+    except Exception as e:
+        return ["err", err_kind(e)]
+
+
+def gen_values(rng, n):
+    """(class tag, object a, object b, normal): pairs of None / Labels / Capacities / UserData built from the pools; `normal` =
+    both sides have every field of the class (what the canonical strings of this harness are meant for)"""
+    r = R.load()
+    from fim.slivers.json_data import MeasurementData
+    out = []
+
+    def lab(d, drop=None):
+        if d is None:
+            return None
+        o = r.Labels(**d)
+        if drop:
+            o.__dict__.pop(drop, None)           # an instance pickled by a version that did not have the field yet
+        return o
+
+    def cap(d, drop=None, none=None):
+        if d is None:
+            return None
+        o = r.Capacities(**d)
+        if none:
+            o.__dict__[none] = None               # Capacities(core=None)
+        if drop:
+            o.__dict__.pop(drop, None)
+        return o
+    lpool, cpool = LABEL_POOL, CAP_POOL
+    upool = UD_POOL + UD_EXTRA
+    # deterministic part: every pool value against every other
+    for a in lpool:
+        for b in lpool:
+            out.append(("L", lab(a), lab(b), True))
+    for a in cpool:
+        for b in cpool:
+            out.append(("C", cap(a), cap(b), True))
+    for a in upool:
+        for b in upool:
+            out.append(("U", None if a is None else r.UserData(a), None if b is None else r.UserData(b), True))
+    out.append(("UX", r.UserData('{"a": 1}'), MeasurementData('{"a": 1}'), False))
+    out.append(("UX", MeasurementData('{"a": 1}'), r.UserData('{"a":1}'), False))
+    out.append(("UX", MeasurementData('{"a": 1}'), r.UserData('{"a": 2}'), False))
+    lf = ["vlan", "mac", "ipv4", "local_name", "bdf"]
+    cf = ["core", "ram", "bw", "unit", "disk"]
+    for _ in range(n):
+        k = rng.random()
+        if k < 0.35:
+            a, b = rng.choice(lpool[1:]), rng.choice(lpool[1:])
+            da, db = (rng.choice(lf) if rng.random() < 0.5 else None), (rng.choice(lf) if rng.random() < 0.5 else None)
+            out.append(("L", lab(a, da), lab(b, db), da is None and db is None))
+        elif k < 0.7:
+            a, b = rng.choice(cpool[1:]), rng.choice(cpool[1:])
+            da, db = (rng.choice(cf) if rng.random() < 0.4 else None), (rng.choice(cf) if rng.random() < 0.4 else None)
+            na, nb = (rng.choice(cf) if rng.random() < 0.3 else None), (rng.choice(cf) if rng.random() < 0.3 else None)
+            out.append(("C", cap(a, da, na), cap(b, db, nb), not (da or db or na or nb)))
+        else:
+            # a random JSON value and a re-serialisation of it with shuffled members / a small mutation
+            v = g_json(rng, 3)
+            w = shuffle_json(rng, v) if rng.random() < 0.6 else g_json(rng, 3)
+            if rng.random() < 0.3:
+                w = mutate_json(rng, w)
+            out.append(("U", r.UserData(json.dumps(v)), r.UserData(json.dumps(w, separators=rng.choice([(",", ":"), (", ", ": ")]))), True))
+    return out
+
+
+def g_json(rng, depth):
+    k = rng.random()
+    if depth == 0 or k < 0.35:
+        return rng.choice([None, True, False, 0, 1, 1.0, -1, 2, 2.5, 100, 1e2, "x", "1", "", "true"])
+    if k < 0.6:
+        return [g_json(rng, depth - 1) for _ in range(rng.randrange(0, 4))]
+    return {rng.choice(["a", "b", "c", "aa", "B", "z", "k1", "k10", "k2"]): g_json(rng, depth - 1) for _ in range(rng.randrange(0, 4))}
+
+
+def shuffle_json(rng, v):
+    if isinstance(v, list):
+        return [shuffle_json(rng, x) for x in v]
+    if isinstance(v, dict):
+        ks = list(v)
+        rng.shuffle(ks)
+        return {k: shuffle_json(rng, v[k]) for k in ks}
+    return v
+
+
+def mutate_json(rng, v):
+    """swap one scalar for a look-alike of another JSON type (true <-> 1, 1 <-> 1.0, 1 <-> "1")"""
+    alike = {True: 1, 1: 1.0, 1.0: 1, 0: False, False: 0, "1": 1, None: 0}
+    if isinstance(v, list) and v:
+        i = rng.randrange(len(v))
+        return v[:i] + [mutate_json(rng, v[i])] + v[i + 1:]
+    if isinstance(v, dict) and v:
+        k = rng.choice(sorted(v))
+        return dict(v, **{k: mutate_json(rng, v[k])})
+    for a, b in alike.items():
+        if type(a) is type(v) and a == v:
+            return b
+    return v
+
+
+def dict_correspondence(ctx, res, n):
+    """histories of add_interface / remove_interface on a real InterfaceInfo (re-adding an existing name, removing an absent one)
+    against `dictRun`: same keys in the same order holding the same slivers"""
+    r = R.load()
+    rng = ctx.sub_rng("dictops")
+    reqs, impl = [], []
+    for _ in range(n):
+        info = r.InterfaceInfo()
+        ops = []
+        for _ in range(rng.randrange(0, 9)):
+            k = "s%d" % rng.randrange(4)
+            if rng.random() < 0.65:
+                leaf = g_leaf(rng, k)
+                sl = mk_iface(leaf)
+                info.add_interface(sl)
+                ops.append(["set", wire_leaf(sl)])
+            else:
+                info.remove_interface(k)
+                ops.append(["pop", k])
+        reqs.append(["dictops", ops])
+        impl.append(["ok", [wire_leaf(x) for x in info.interfaces.values()]])
+        if [k for k, x in info.interfaces.items() if k != x.resource_name]:
+            res.violation("C17:InterfaceInfo:key-is-not-resource-name", "a dictionary key differs from the name of the sliver it holds", ops)
+    model = LeanDriver("C17").run([json.dumps(q) for q in reqs])
+    for q, i, m in zip(reqs, impl, model):
+        res.evaluations += 1
+        res.count("kind:dictops")
+        if len(q[1]) >= 2:
+            res.nontrivial.add(canon(q))
+        mm = json.loads(m)
+        if mm != i:
+            res.disagreements.append({"case": {"request": q}, "impl": i, "model": mm})
+
+
+def class_correspondence(ctx, res):
+    """slivers of unrelated classes are refused (the isinstance assertion of the abstract diff every method calls first)"""
+    P0 = [None, None, None]
+    mk = {"node": lambda: mk_node({"n": "n1", "p": P0, "comps": None, "svcs": None}),
+          "svc": lambda: mk_svc({"n": "s1", "t": "OVS", "p": P0, "ifs": None}),
+          "iface": lambda: mk_iface({"n": "p1", "t": "DedicatedPort", "p": P0, "subs": None})}
+    reqs, impl = [], []
+    for ka in mk:
+        for kb in mk:
+            if ka != kb:
+                reqs.append(["classes", ka, kb])
+                impl.append(run_diff(mk[ka](), mk[kb]()))
+    model = LeanDriver("C17").run([json.dumps(q) for q in reqs])
+    for q, i, m in zip(reqs, impl, model):
+        res.evaluations += 1
+        res.count("kind:classes")
+        if json.loads(m) != i:
+            res.disagreements.append({"case": {"request": q}, "impl": i, "model": json.loads(m)})
+
+
+def value_correspondence(ctx, res, n):
+    r = R.load()
+    rng = ctx.sub_rng("values")
+    cases = gen_values(rng, n)
+    reqs, impl, canon_eq = [], [], []
+    for tag, a, b, normal in cases:
+        if tag in ("L", "C"):
+            reqs.append(["veq", tag, fields_wire(a), fields_wire(b)])
+            ca = None if a is None else (canon_labels if tag == "L" else canon_caps)(dict(a.__dict__))
+            cb = None if b is None else (canon_labels if tag == "L" else canon_caps)(dict(b.__dict__))
+        else:
+            # an instance goes as ["v", value] (its value may be the JSON null), an unset property as null
+            reqs.append(["veq", tag, None if a is None else ["v", j_wire(json.loads(a._data))],
+                         None if b is None else ["v", j_wire(json.loads(b._data))]])
+            ca = None if a is None else canon_ud(a._data)
+            cb = None if b is None else canon_ud(b._data)
+        impl.append(py_eq(a, b))
+        canon_eq.append((ca == cb) if normal and tag != "UX" else None)
+    # the code's own canonical text, read back, against the model's canonical form
+    texts = UD_POOL[1:] + UD_EXTRA + [json.dumps(g_json(rng, 4)) for _ in range(n // 4)]
+    for t in texts:
+        u = r.UserData(t)
+        reqs.append(["canon", "U", j_wire(json.loads(t))])
+        impl.append(["ok", j_wire(json.loads(u._canonical()))])
+        canon_eq.append(None)
+    model = LeanDriver("C17").run([json.dumps(q) for q in reqs])
+    for q, i, m, ce in zip(reqs, impl, model, canon_eq):
+        res.evaluations += 1
+        res.count("kind:" + q[0] + ":" + q[1])
+        if q[0] == "veq" and i[0] == "ok":
+            res.count("veq:%s:%s" % (q[1], "equal" if i[1][0] else "different"))
+        if q[2] != (q[3] if len(q) > 3 else None):
+            res.nontrivial.add(canon(q))
+        mm = json.loads(m)
+        if mm != i:
+            res.disagreements.append({"case": {"request": q}, "impl": i, "model": mm})
+        elif ce is not None and i[0] == "ok" and ce != i[1][0]:
+            # the canonical strings this harness puts on the wire / judges by disagree with the library's own equality
+            res.disagreements.append({"case": {"request": q, "harness-canonical-strings-equal": ce}, "impl": i, "model": mm})
+
+
 def count_edits(sc):
     """elementary edits of a script (any level)"""
     n = 0
@@ -1181,15 +1666,16 @@ W_SCRIPT = {"node": w_node_script, "svc": w_svc_script, "iface": w_iface_script}
 
 def request_of(case, a, b, rev=False):
     w = WIRE[case["kind"]]
-    return [case["kind"], w(b), w(a)] if rev else [case["kind"], w(a), w(b)]
+    k = "node" if case["kind"] == "topo" else case["kind"]
+    return [k, w(b), w(a)] if rev else [k, w(a), w(b)]
 
 
 def correspondence(ctx, res, n=None):
     R.load()
     rng = ctx.sub_rng("corr")
     n = n or ctx.scale(500, 6000)
-    cases = corner_cases() + hidden_cases() + corner_pairs() + load_corpus() + gen_cases(rng, n, hidden_ok=True) + \
-        gen_malformed(rng, n // 4) + gen_pairs(rng, n // 2)
+    cases = corner_cases() + hidden_cases() + corner_pairs() + corner_topo() + load_corpus() + gen_cases(rng, n, hidden_ok=True) + \
+        gen_malformed(rng, n // 4) + gen_pairs(rng, n // 2) + gen_topo(rng, n // 5)
     reqs, impl, meta = [["cfg"]], [None], [None]
     for c in cases:
         try:
@@ -1205,8 +1691,8 @@ def correspondence(ctx, res, n=None):
         reqs.append(request_of(c, b, copy.deepcopy(b)))
         impl.append(run_diff(b, copy.deepcopy(b)))
         meta.append(c)
-        if "pair" in c:
-            res.count("pairs")
+        if "pair" in c or c["kind"] == "topo":
+            res.count("topo" if c["kind"] == "topo" else "pairs")
             continue
         # the Lean edit-script semantics against the real add_/remove_/set_ methods, and the report the Lean
         # theorems predict from the script (`expNode` …) against what the real diff returns
@@ -1243,28 +1729,52 @@ def correspondence(ctx, res, n=None):
                         for nm, bit in flag_bits:
                             if bit and f & bit == bit:
                                 res.count("flag:" + nm)
-        if "pair" in c or count_edits(c.get("script")) >= 1:
+        if "pair" in c or c["kind"] == "topo" or count_edits(c.get("script")) >= 1:
             res.nontrivial.add(canon(r))
         mm = norm_for(r, m)
         if mm != i:
             res.disagreements.append({"case": {"request": r, "origin": c}, "impl": i, "model": mm})
+    value_correspondence(ctx, res, ctx.scale(600, 6000))
+    dict_correspondence(ctx, res, ctx.scale(300, 3000))
+    class_correspondence(ctx, res)
     if len(reqs) > 1:
         k = min(len(reqs) - 1, 120)
         res.sample({"request": reqs[k], "impl": impl[k], "model": norm_for(reqs[k], model[k])})
         res.sample({"request": reqs[-1], "impl": impl[-1], "model": norm_for(reqs[-1], model[-1])})
 
 
+def check_hypotheses(res):
+    """the guard of the theorems about NodeSliver.diff (`Node.Ok`: every SmartNIC carries a network service) holds of every
+    SmartNIC the library itself produces from its component catalog"""
+    from fim.slivers.component_catalog import ComponentCatalog, ComponentModelType
+    r = R.load()
+    cat = ComponentCatalog()
+    for mt in ComponentModelType:
+        res.evaluations += 1
+        try:
+            c = cat.generate_component(name="cx1", model_type=mt)
+        except Exception as e:
+            res.count("catalog:skip:" + err_kind(e))
+            continue
+        res.count("catalog:" + type_name(c))
+        if c.get_type() == r.ComponentType.SmartNIC and not (c.network_service_info and c.network_service_info.network_services):
+            res.violation("C17:hypothesis:smartnic-without-service:" + mt.name,
+                          "the catalog produces a SmartNIC without a network service: NodeSliver.diff raises on it", {"model_type": mt.name})
+
+
 def oracle(ctx, res, n=None):
     R.load()
+    check_hypotheses(res)
     rng = ctx.sub_rng("oracle")
     n = n or ctx.scale(1500, 20000)
-    cases = load_corpus() + corner_cases() + hidden_cases() + corner_pairs() + gen_cases(rng, n) + gen_pairs(rng, n // 3)
+    cases = load_corpus() + corner_cases() + hidden_cases() + corner_pairs() + corner_topo() + gen_cases(rng, n) + \
+        gen_pairs(rng, n // 3) + gen_topo(rng, n // 10)
     for c in cases:
         res.evaluations += 1
         ne = count_edits(c.get("script"))
         res.count("kind:" + c["kind"])
-        res.count("pair" if "pair" in c else "edits:%s" % (ne if ne < 8 else "8+"))
-        if ne >= 1 or "pair" in c:
+        res.count("topo-ops:%d" % min(len(c["ops"]), 6) if c["kind"] == "topo" else "pair" if "pair" in c else "edits:%s" % (ne if ne < 8 else "8+"))
+        if ne >= 1 or "pair" in c or c["kind"] == "topo":
             res.nontrivial.add(canon(c))
         if has_ud_both(c.get("script")):
             res.count("ud_both")
@@ -1276,7 +1786,7 @@ def search(ctx, res, broken):
     R.load()
     rng = ctx.sub_rng("search")
     for c in corner_cases() + hidden_cases() + corner_pairs() + load_corpus() + gen_cases(rng, ctx.scale(15000, 100000), hidden_ok=True) + \
-            gen_pairs(rng, ctx.scale(5000, 30000)):
+            gen_pairs(rng, ctx.scale(5000, 30000)) + corner_topo() + gen_topo(rng, ctx.scale(1000, 5000)):
         res.evaluations += 1
         check_case(c, res)
 
